@@ -35,6 +35,7 @@ type c23Add struct {
 	Rule  c23Rule  `json:"rule"`
 }
 type c23Case struct {
+	Kind    string     `json:"kind"` // "broker"
 	Enabled bool       `json:"enabled"`
 	Default string     `json:"default"`
 	Entries []c23Entry `json:"entries"`
@@ -371,6 +372,7 @@ func TestVerifC23(t *testing.T) {
 	rep := vNewReport("C23", "broker authorizer: generated acl.Config (0-4 principal entries incl. duplicates / whitespace variants / blank names, 0-3 allow and 0-2 deny rules each over actions x resources x name patterns exact, p*, *, empty, case and whitespace variants, double star; 7 default-policy spellings; ACL on/off) x ALL 150 requests of the request alphabet, plus one generated edit (add allow/deny rule or entry at any position) per case; non-trivial = at least two different clauses decide requests of the case and (if edited) the edit changes an answer or the config has a duplicate principal; distinct = distinct canonical JSON")
 	var coq, jsons []string
 	runOne := func(c c23Case) {
+		c.Kind = "broker"
 		res := c23Run(c)
 		canon, _ := json.Marshal(c)
 		clauses := 0
@@ -409,7 +411,9 @@ func TestVerifC23(t *testing.T) {
 		if err := json.Unmarshal(rc, &c); err != nil {
 			t.Fatalf("bad replay: %v", err)
 		}
-		runOne(c)
+		if c.Kind == "broker" {
+			runOne(c)
+		}
 	} else {
 		all := c23Rule{A: "*", R: "*", N: "*"}
 		corpus := []c23Case{
